@@ -747,6 +747,23 @@ def corpus() -> List[dict]:
         {"kind": "bar", "arg": dict(p=1, t=1, o=60, h=60, l=60, c=60, v=1000)},
         {"kind": "create_order", "arg": _req(type="limit", amount=2, limit=50)},
         {"kind": "bar", "arg": dict(p=1, t=2, o=2, h=5, l=2, c=5, v=1000)}]})
+    # a repayment refused by the margin rule (the account fell below its requirement when the minimum interest of the
+    # second loan started to count), attempted again and again: whatever happens inside the refused call -- however many
+    # times it has been refused before -- the loan stays listed as open and the borrowed balance stays its principal
+    # (round 5, C02-9: a loan closed for the duration of the call dropped out of the open-loans index on its 50th use)
+    for nrep, stride, min_int in ((70, 7, 1), (110, 5, 2)):
+        cfg = base_cfg(scale={"BTC": 10, "USD": 1}, init={"BTC": 0, "USD": 10}, lendMode="margin", quoteSym="USD", reqD=10,
+                       cond={"USD": margin_cond("USD", pctN=0, pctD=1, period=2, minInt=0, reqN=5),
+                             "BTC": margin_cond("USD", pctN=0, pctD=1, period=2, minInt=min_int, reqN=1)})
+        steps = [{"kind": "bar", "arg": dict(p=1, t=1, o=10, h=10, l=10, c=10, v=1000)},
+                 {"kind": "create_loan", "arg": {"sym": "USD", "amount": 19}},
+                 {"kind": "create_loan", "arg": {"sym": "BTC", "amount": 1}}]
+        for i in range(nrep):
+            steps.append({"kind": "repay_loan", "arg": 2})
+            if i % stride == 3:
+                steps.append({"kind": "bar", "arg": dict(p=1, t=2 + i, o=10, h=10, l=10, c=10, v=1000)})
+        steps.append({"kind": "repay_loan", "arg": 1})
+        out.append({"cfg": cfg, "steps": steps})
     # D15: rollback of the first auto-borrow loan vetoed by the margin rule (found by a seed sweep)
     for name in ("corpus_d15.json", "corpus_d16.json"):      # D16: loan with unvaluable flat interest refused before touching the account
         path = os.path.join(os.path.dirname(os.path.abspath(__file__)), name)
